@@ -655,6 +655,8 @@ class Engine(object):
 
     def term_adt(self, t):
         """ADT of the value a storage read produced (None when unknown)"""
+        if isinstance(t, tuple) and t and t[0] == "unwrap_or" and t[1][0] == "vfield" and t[1][2] == "Ok" and t[1][1][0] == "may_load":
+            return self.item_value_adt(t[1][1][1])      # stored entry or its default
         if not isinstance(t, tuple) or not t or t[0] != "vfield":
             return None
         if t[2] == "Ok" and t[1][0] == "load":
@@ -770,6 +772,15 @@ class Engine(object):
         r = st.refine.get(t)
         if r is not None:
             return [(st, r == pol)]
+        if t[0] == "cmp" and t[1] == "eq":
+            # an earlier `match x { 7 => .. }` decided x: a later `x == 9` is not a fresh decision
+            for a_, b_ in ((t[2], t[3]), (t[3], t[2])):
+                k = st.refine.get(a_)
+                if b_[0] == "lit" and isinstance(b_[1], int) and isinstance(k, tuple) and k:
+                    if k[0] == "=":
+                        return [(st, (k[1] == b_[1]) == pol)]
+                    if k[0] == "notin" and b_[1] in k[1]:
+                        return [(st, (False) == pol)]
         if t[0] == "is":
             # x.is_some() / x.is_ok() used as a branch condition is the same decision as `match x`: record it on x
             base, pos = t[1], t[2]
@@ -859,6 +870,19 @@ class Engine(object):
             # unreachable / unwind / other
             return out
 
+    def loop_leaves(self, st, loc, name, path=(), depth=0):
+        """the places below `loc` that get their own loop variable: a struct-valued local is split field by field (two
+        levels), so that `ledger.total` is an accumulator of its own; stored references keep their target"""
+        cur = self.read_loc(st, loc, path) if path else st.mem.get(loc)
+        if isinstance(cur, tuple) and cur and cur[0] == "ref":
+            return []
+        if isinstance(cur, tuple) and cur and cur[0] == "struct" and cur[2] and depth < 2:
+            out = []
+            for i, (n, v) in enumerate(cur[2]):
+                out += self.loop_leaves(st, loc, "%s.%s" % (name, n), path + (HD({"f": i, "n": n}),), depth + 1)
+            return out
+        return [(loc, path, name)]
+
     def loop_head(self, st, body, fid, bb, info):
         key = (fid, bb)
         cnt = st.loopcnt.get(key, 0)
@@ -874,27 +898,30 @@ class Engine(object):
                 loc, _ = self.resolve(st, fid, pl)
                 if loc not in locs and loc in st.mem:
                     locs.append(loc)
-            st.loopinfo[key] = tuple(locs)
-            vals = {}
+            leaves = []
             for loc in locs:
-                vals[self.locname(body, fid, loc)] = self.val(st, st.mem[loc])
+                leaves += self.loop_leaves(st, loc, self.locname(body, fid, loc))
+            st.loopinfo[key] = tuple(leaves)
+            vals = {}
+            for loc, path, nm in leaves:
+                vals[nm] = self.val(st, self.read_loc(st, loc, path))
             st.effects.append(Effect("loop_enter", name=lk, value=vals, site=self.site(body, body.blocks[bb]["term"]["line"]),
                                      loops=st.loopstack, stack=st.stack))
             st.loopstack = st.loopstack + (lk,)
         else:
-            locs = st.loopinfo[key]
+            leaves = st.loopinfo[key]
             vals = {}
-            for loc in locs:
-                vals[self.locname(body, fid, loc)] = self.val(st, st.mem[loc])
+            for loc, path, nm in leaves:
+                vals[nm] = self.val(st, self.read_loc(st, loc, path))
             st.effects.append(Effect("loop_step", name=lk, value=vals, site=self.site(body, body.blocks[bb]["term"]["line"]),
                                      loops=st.loopstack, stack=st.stack))
             if st.loopstack and st.loopstack[-1] == lk:
                 st.loopstack = st.loopstack[:-1]
-        for loc in locs:
-            cur = st.mem.get(loc)
+        for loc, path, nm in leaves:
+            cur = self.read_loc(st, loc, path)
             if isinstance(cur, tuple) and cur and cur[0] == "ref":
                 continue  # a reference that is re-borrowed in the loop keeps its target
-            st.mem[loc] = ("loopvar", lk, self.locname(body, fid, loc), cnt)
+            self.write_loc(st, loc, path, ("loopvar", lk, nm, cnt))
         st.loopcnt[key] = cnt + 1
         return True
 
@@ -947,14 +974,19 @@ class Engine(object):
         # integer switch on an opaque value
         res = []
         known = st.refine.get(v)
+        excluded = ()
         if known is not None:
             for val, tg in arms:
                 if ("=", int(val)) == known:
                     return [(st, tg)]
             if known[0] == "=":
                 return [(st, other)]
+            if known[0] == "notin":
+                excluded = known[1]
         vals = []
         for val, tg in arms:
+            if int(val) in excluded:
+                continue
             s2 = st.copy()
             s2.refine[v] = ("=", int(val))
             s2.conds.append((v, ("=", int(val)), site, len(s2.effects)))
@@ -962,6 +994,7 @@ class Engine(object):
             vals.append(int(val))
         if not (body.blocks[other]["term"]["t"] == "unreachable" and not body.blocks[other]["stmts"]):
             st.conds.append((v, ("notin", tuple(vals)), site, len(st.effects)))
+            st.refine[v] = ("notin", tuple(sorted(set(vals) | set(excluded))))
             res.append((st, other))
         return res
 
@@ -983,7 +1016,10 @@ class Engine(object):
         return self.call_named(st, dp, name, trait_name, ctor, args, site, depth, t)
 
     def call_value(self, st, f, args, site, depth):
-        f = self.val(st, f) if f[0] == "ref" else f
+        n_ = 0
+        while isinstance(f, tuple) and f and f[0] == "ref" and n_ < 8:
+            f = self.read_loc(st, f[1], f[2])       # shallow: the closure's captured `&mut` places must stay references
+            n_ += 1
         if f[0] == "closure":
             b = self.by_dp.get(f[1])
             if b is None:
@@ -1011,8 +1047,10 @@ class Engine(object):
         # closure invocation through Fn* traits
         if trait_name in ("std::ops::FnOnce::call_once", "std::ops::Fn::call", "std::ops::FnMut::call_mut"):
             f = args[0]
-            if f[0] == "ref":
-                f = self.val(st, f)
+            n_ = 0
+            while isinstance(f, tuple) and f and f[0] == "ref" and n_ < 8:
+                f = self.read_loc(st, f[1], f[2])
+                n_ += 1
             targs = args[1] if len(args) > 1 else UNIT
             if targs[0] == "ref":
                 targs = self.read_loc(st, targs[1], targs[2])
